@@ -246,6 +246,11 @@ template <class T, int L> static void refract_L(pbt::Ctx& c) {
 		T si = (T)c.uniform(0.25, 1.5), sn = (T)c.uniform(0.5, 1.5);
 		for (int i = 0; i < L; ++i) { in[i] *= si; n[i] *= sn; }
 		eta = c.coin() ? (T)c.loguniform(0.1, 10.0) : (T)c.uniform(0.9, 3.0);
+		if (c.draw(4) == 0) {  // eta within a few ulps of the critical value of these (non-unit) inputs
+			R ri[4], rn[4]; lift(in, ri); lift(n, rn);
+			R d0 = dot(rn, ri, L), q0 = 1 - d0 * d0;
+			if (q0 > 0) { T e0 = (T)(1 / sqrtl(q0)); if (fp::is_finite(e0) && e0 > 0) { eta = fp::from_ordered<T>(fp::ordered(e0) + (int)c.range(-4, 4)); gname = "gen:non-unit critical angle"; } }
+		}
 	} else if (gc == 6) {  // k = 0 exactly: eta = 1, exactly orthogonal small-integer vectors (not unit unless axis-aligned)
 		unit = false; gname = "gen:k=0 exactly";
 		for (int i = 0; i < 4; ++i) in[i] = n[i] = 0;
@@ -301,6 +306,11 @@ template <class T, int L> static void refract_L(pbt::Ctx& c) {
 			continue;
 		}
 		if (cls == 2 && zero) { c.cls("critical angle: zero vector returned"); continue; }
+		bool anynan = false; for (int i = 0; i < L; ++i) anynan = anynan || fp::is_nan(g[i]);
+		if (cls == 2 && anynan) {  // either branch is acceptable here, NaN is neither (own key: the float k was negative and the result is not the zero vector)
+			c.failk(key("refract", LL, "critical-angle-nan"), "refract(I=%s,N=%s,eta=%.9g)=%s, k=%.6Lg is within rounding of 0: the zero vector or eta*I-(eta*d+sqrt(k))N is documented, not NaN", vstr(in, L).c_str(), vstr(n, L).c_str(), (double)eta, vstr(g, L).c_str(), k);
+			continue;
+		}
 		bool ok = true;
 		for (int i = 0; i < L; ++i) {
 			if (!within(c, cls == 2 ? "refract critical-angle err/tol" : "refract component err/tol", rabs(rg[i] - want[i]), tol[i])) {
